@@ -129,6 +129,35 @@ pub fn big_cases(thorough: bool) -> Vec<BigCase> {
             }
         }
     }
+    // matches that start late in a long haystack, with and without prefix preference (the
+    // prefix bonus is computed from the start offset)
+    for k in [0usize, 1, 2, 7, 100, 5000, 21843, 21844, 21845, 21846, 21847, 21848, 30000, 43690, 43691, 65533, 65534, 65535, 65536, 65537, 70000] {
+        for prefer_prefix in [false, true] {
+            let c = Cfg { ignore_case: true, normalize: true, paths: false, prefer_prefix };
+            let mut hay: Vec<char> = vec!['x'; k];
+            hay.extend(['a', 'b', 'y', 'y']);
+            out.push(BigCase { family: "late-start/ab", cfg: c, hay: hay.clone(), needle: vec!['a', 'b'] });
+            out.push(BigCase { family: "late-start/a", cfg: c, hay: hay.clone(), needle: vec!['a'] });
+            out.push(BigCase { family: "late-start/a-y", cfg: c, hay, needle: vec!['a', 'y', 'y'] });
+        }
+    }
+    // long gaps: the running score is floored at zero inside the gap (after 14..35 skipped
+    // characters depending on the bonus before it), which is where "open a gap" and "extend the
+    // gap" tie in the optimal matcher
+    for g in 0..=(if thorough { 120 } else { 70 }) {
+        for c in [cfg(true, false), cfg(false, true)] {
+            let xs: Vec<char> = vec!['x'; g];
+            let mk = |parts: &[&[char]]| -> Vec<char> { parts.iter().flat_map(|p| p.iter().copied()).collect() };
+            let ab: Vec<char> = vec!['a', 'b'];
+            let abc: Vec<char> = vec!['a', 'b', 'c'];
+            out.push(BigCase { family: "long-gap/a-b", cfg: c, hay: mk(&[&['a'], &xs, &['b']]), needle: ab.clone() });
+            out.push(BigCase { family: "long-gap/xa-b", cfg: c, hay: mk(&[&['x', 'a'], &xs, &['b']]), needle: ab.clone() });
+            out.push(BigCase { family: "long-gap/ a-b", cfg: c, hay: mk(&[&[' ', 'a'], &xs, &['b'], &['x']]), needle: ab.clone() });
+            out.push(BigCase { family: "long-gap/a-b-c", cfg: c, hay: mk(&[&['x', 'a'], &xs, &['b'], &xs, &['c']]), needle: abc.clone() });
+            out.push(BigCase { family: "long-gap/ab-c", cfg: c, hay: mk(&[&['a', 'b'], &xs, &['c', 'x']]), needle: abc.clone() });
+            out.push(BigCase { family: "long-gap/a-bc", cfg: c, hay: mk(&[&['/', 'a'], &xs, &['b', 'c']]), needle: abc.clone() });
+        }
+    }
     for n in needle_lengths(thorough) {
         let c = cfg(false, false);
         let run: Vec<char> = vec!['a'; n];
